@@ -45,7 +45,7 @@ def _cases(draw):
     for _ in range(draw(st.sampled_from([0, 0, 1, 2]))):
         gaps.append({"agent": draw(st.sampled_from(list(TGT) + [SEN[0]])), "step": draw(st.integers(1, n))})
     return {"start": iso(t0), "dt": draw(st.sampled_from([30, 60, 300, 225, 675])), "n": n, "extras": draw(st.integers(0, 5)), "gaps": gaps,
-            "missing_agent": draw(st.sampled_from([None, None, None, TGT[1]])), "sensors_imported": draw(st.booleans()),
+            "missing_agent": draw(st.sampled_from([None, None, None, TGT[1]])), "sensors_imported": draw(st.booleans()), "targets_realtime": draw(st.sampled_from([False, False, True])),
             "obs_imported": draw(st.booleans()),
             # the importing scenario may split the same agents over two tasking engines (each sensor/target pair of the source
             # run stays inside one engine)
@@ -126,7 +126,10 @@ def importer(c, rec):
             obs_rows.setdefault(k, []).append((sid, tid))
         con.close()
         sha0, dump0 = _sha(imp), _dump(imp)
-        imported_ids = list(TGT) + (list(SEN) if c["sensors_imported"] else [])
+        # every mix with at least one imported class: targets only, targets + sensors, sensors only
+        targets_imported = not (c.get("targets_realtime") and c["sensors_imported"])
+        imported_ids = (list(TGT) if targets_imported else []) + (list(SEN) if c["sensors_imported"] else [])
+        rec.label("imported:" + "+".join(n_ for n_, f in (("targets", targets_imported), ("sensors", c["sensors_imported"])) if f))
         # which step is the first with a registered agent lacking a record
         first_missing = None
         for k in range(1, n + 1):
@@ -143,7 +146,7 @@ def importer(c, rec):
         rec.label("importing_engines:%d" % len(engines_b))
         cfg_b = kit.scenario_config(
             t0, t0 + timedelta(seconds=(n + 1) * dt), dt, engines_b, seq_filter={"alpha": 0.5},
-            propagation={"target_realtime_propagation": False, "sensor_realtime_propagation": not c["sensors_imported"]},
+            propagation={"target_realtime_propagation": not targets_imported, "sensor_realtime_propagation": not c["sensors_imported"]},
             observation={"realtime_observation": not c["obs_imported"], "background": True})
         fed = {}
         orig_init = eu.EstUpdateRegistration.__init__
